@@ -195,7 +195,8 @@ def main():
         "trusted_base": TRUSTED_BASE_COMMON + list(getattr(drv, "TRUSTED_BASE", [])),
         "theorems": ctx.theorems,
         "print_assumptions": {"closed_under_global_context": ctx.assumptions.get("closed", 0),
-                              "axioms": ctx.assumptions.get("axioms", [])},
+                              "axioms": ctx.assumptions.get("axioms", []),
+                              "kernel_primitives_used": ctx.assumptions.get("kernel_primitives", [])},
         "generated_files": ctx.gen_status,
         "traces_validated_against_impl": res.traces,
     }
@@ -222,7 +223,7 @@ def main():
     for k in res.known:
         print(f"KNOWN-FINDING: property={prop} {k}")
     rc = 0
-    for v in res.violations:
+    for v in res.violations[:5]:
         path = common.write_replay(prop, {"property": prop, "what": v["what"], "seed": ctx.seed,
                                           "tier": ctx.tier, **v["payload"]})
         tail = "" if v["found_input"] else " no-failing-input-found"
